@@ -86,7 +86,11 @@ impl XenDev {
         let pages = len.div_ceil(PAGE) as u64;
         // a window over the grant device must lie inside a live grant (offset 0 maps are the
         // privcmd style "reserve first, populate by ioctl" mappings and are not checked here)
-        if let Some(g) = self.grants.iter_mut().find(|g| g.live && offset >= g.index && offset + pages * PAGE as u64 <= g.index + g.count as u64 * PAGE as u64) {
+        // like the driver, prefer the grant whose index is the offset (several may be live at once)
+        let exact = self.grants.iter().position(|g| g.live && g.windows.is_empty() && offset == g.index && pages <= g.count as u64);
+        if let Some(i) = exact {
+            self.grants[i].windows.push(id);
+        } else if let Some(g) = self.grants.iter_mut().find(|g| g.live && offset >= g.index && offset + pages * PAGE as u64 <= g.index + g.count as u64 * PAGE as u64) {
             g.windows.push(id);
         } else if offset != 0 {
             self.anomalies.push(format!("mmap of {} byte(s) of the grant device at offset {:#x} which no live grant covers", len, offset));
@@ -177,7 +181,8 @@ pub unsafe fn ioctl(fd: i32, req: u64, arg: *mut u8, _arg_len: usize) -> i32 {
                 *libc::__errno_location() = libc::EBUSY;
                 return -1;
             }
-            match x.grants.iter_mut().find(|g| g.live && g.index == u.index && g.count == u.count) {
+            let pick = x.grants.iter().position(|g| g.live && g.index == u.index && g.count == u.count && g.windows.is_empty()).or_else(|| x.grants.iter().position(|g| g.live && g.index == u.index && g.count == u.count));
+            match pick.map(|i| &mut x.grants[i]) {
                 Some(g) => {
                     if !g.windows.is_empty() {
                         x.anomalies.push(format!("grant at index {:#x} released while {} window(s) over it are still mapped", u.index, g.windows.len()));
